@@ -38,6 +38,10 @@ CLAIMED = {
             "Theorems C08_bounded (never more bytes than the declared size over any Read sequence), C08_constructor_short/negative, C08_read_accounting and C08_close_certifies hold for every byte stream. PARTIAL: termination and freedom from index errors (C08_terminates_statement) and 'Close nil implies canonical decoding' (C08_verdict_statement) are Props decided per run: every truncation and bit flip of valid streams, header edits and splices are read by the implementation under a watchdog and read-count bound, every Read replayed in the model, and each nil Close is checked against the independent Canon decoder.",
             "bufio (4096-byte fills), io.TeeReader and bytes.Buffer modelled; termination/no-panic rely on the adaptive-Huffman invariant that is checked by correspondence, not yet proved.",
             "DESIGN.md section 6 C08"),
+    "C09": ("Coq proof of the section framing for all contents (body/attachments of arbitrary bytes read back exactly; short and negative sizes refused) + correspondence of Bytes()/ReadFrom with the model on API-built and mutated messages",
+            "Theorems C09_sections/C09_files/C09_section_*/C09_layout hold for every body and every list of attachments of arbitrary bytes. PARTIAL: the header block (net/textproto.ReadMIMEHeader, modelled) and the full statement C09_roundtrip_statement are decided per run: API-built messages (all address forms, Latin-1 subjects and file names, any minute, 0..4 attachments, X- headers) are serialised and parsed by code and model through whole, 1-byte and random-chunk readers, with parse(serialise m) = m, canonical re-serialisation and the accessors checked on the implementation.",
+            "mime.QEncoding/WordDecoder, go-charset, time.Parse (beyond the four Winlink layouts) and textproto are library code: modelled or passed through; the known finding 'subject with outer white space is trimmed' is reported as KNOWN-FINDING.",
+            "DESIGN.md section 6 C09"),
 }
 
 NOT_YET = {}
